@@ -74,6 +74,7 @@ type caseIn struct {
 	Via            string      `json:"via"` // api | helper name
 	Ops            []opSpec    `json:"ops"`
 	Gen            string      `json:"gen,omitempty"`
+	Probe          *probeIn    `json:"probe,omitempty"` // via == "probe": arbitrary steps on an arbitrary region
 }
 
 var roleOfName = map[string]metapb.PeerRole{"voter": metapb.PeerRole_Voter, "learner": metapb.PeerRole_Learner,
@@ -1232,7 +1233,39 @@ func main() {
 		Footer: "Definition M := Eval vm_compute in map fst (mismatches cases).\nDefinition D := Eval vm_compute in hd_error (mismatches cases).\nDefinition V := Eval vm_compute in monitor_fails cases.\nPrint M. Print D. Print V.\n"}
 
 	var all []caseOut
+	emitProbe := func(pi *probeIn) {
+		po := runProbe(rn, pi)
+		R.Count("gen:probe")
+		for i, kd := range po.kinds {
+			R.Count("probe-step:" + kd)
+			te := po.Trace[i]
+			switch {
+			case te.FinBefor:
+				R.Count("probe:already-finished")
+			case te.Safe != "":
+				R.Count("probe:unsafe")
+			case te.Applied == "ok":
+				R.Count("probe:applied")
+			case te.Cmd == "" || te.Cmd == "None":
+				R.Count("probe:nothing-sent")
+			default:
+				R.Count("probe:store-refused")
+			}
+		}
+		R.Case(po.coq, false)
+		if err := cf.Add(po.coq); err != nil {
+			panic(err)
+		}
+		pc := po.In
+		all = append(all, caseOut{Steps: []string{"probe"}, Trace: po.Trace, In: caseIn{Gen: "probe", Via: "probe", Origin: po.In.Peers, Leader: po.In.Leader, Probe: &pc}})
+	}
 	emit := func(c *caseIn) {
+		if c.Via == "probe" {
+			if c.Probe != nil {
+				emitProbe(c.Probe)
+			}
+			return
+		}
 		o := runCase(rn, c)
 		R.Count("gen:" + c.Gen)
 		R.Count("via:" + c.Via)
@@ -1332,29 +1365,7 @@ func main() {
 			}
 		}
 		for k := 0; k < *probes; k++ {
-			po := runProbe(rn, genProbe(master.Fork(uint64(5000000+k))))
-			R.Count("gen:probe")
-			for i, kd := range po.kinds {
-				R.Count("probe-step:" + kd)
-				te := po.Trace[i]
-				switch {
-				case te.FinBefor:
-					R.Count("probe:already-finished")
-				case te.Safe != "":
-					R.Count("probe:unsafe")
-				case te.Applied == "ok":
-					R.Count("probe:applied")
-				case te.Cmd == "" || te.Cmd == "None":
-					R.Count("probe:nothing-sent")
-				default:
-					R.Count("probe:store-refused")
-				}
-			}
-			R.Case(po.coq, false)
-			if err := cf.Add(po.coq); err != nil {
-				panic(err)
-			}
-			all = append(all, caseOut{Steps: []string{"probe"}, Trace: po.Trace, In: caseIn{Gen: "probe", Via: "probe", Origin: po.In.Peers, Leader: po.In.Leader}})
+			emitProbe(genProbe(master.Fork(uint64(5000000 + k))))
 		}
 		R.Notes = append(R.Notes, fmt.Sprintf("driver generated and executed %d cases in %.1fs", len(all), time.Since(t0).Seconds()))
 	}
